@@ -18,7 +18,12 @@ import (
 )
 
 // Register adds this area's suite.
-func Register(s Suites) { s.Add("C04", runPipe) }
+func Register(s Suites) {
+	s.Add("C04", runPipe)
+	s.Add("C05", runPipeLayers)
+	s.Add("C19", runPipeTiles)
+	s.Add("C19", runPipeTilesLayers)
+}
 
 // Case is one configuration of the composed path + the image content.
 type Case struct {
@@ -291,5 +296,388 @@ func runPipe(c *Ctx) {
 		c.CorrEq("pipe_encode_cs", sig("pipe", k, "codestream"), mCS, "ok:"+Hex(enc), k)
 		mDec := c.M.Call("pipe_decode", k.Args(Hex(tile))...)
 		c.CorrEq("pipe_decode", sig("pipe", k, "decode"), mDec, "ok:"+Hex(out), k)
+	})
+}
+
+// ---------------------------------------------------------------------------------------
+// quality layers (C05 / C04 "any number of layers"): NumLayers 2..6, lossless, Rate = 0.
+// The per-block pass allocation is a parameter of the model; for the correspondence it is read
+// off the Go codestream's packet headers with the model's packet decoder (pipe_alloc), then the
+// model encoder must reproduce the Go tile bytes and codestream from the pixels + allocation.
+
+type LCase struct {
+	Case
+	Layers int
+}
+
+func (k LCase) String() string { return fmt.Sprintf("%s ly=%d", k.Case.String(), k.Layers) }
+
+func (k LCase) LArgs(rest ...string) []string {
+	a := k.Case.Args("")
+	a = a[:len(a)-1]
+	a = append(a, fmt.Sprint(k.Layers))
+	return append(a, rest...)
+}
+
+func runPipeLayers(c *Ctx) {
+	c.R.Rule = "composed single-tile reversible path with 2..6 quality layers (lossless, no rate target, default precincts, style 0): same configuration space as the one-layer suite; the allocation of passes to layers is recovered from the Go packet headers and handed to the model encoder; compared: tile bytes, whole codestream, decoded pixels; non-trivial = more than one sample and not constant"
+	n := c.N(300, 4000)
+	rng := c.Rng.Fork()
+	cases := make([]LCase, 0, n)
+	for _, raw := range append(c.CorpusInputs("pipe_layers"), c.ReplayInputs("pipe_layers")...) {
+		var k LCase
+		if json.Unmarshal(raw, &k) == nil && k.W > 0 && k.Layers > 1 {
+			cases = append(cases, k)
+		}
+	}
+	for len(cases) < n {
+		k := LCase{Case: gen(rng, c.Thor)}
+		k.Layers = rng.Range(2, 6)
+		cases = append(cases, k)
+	}
+	ParallelFor(len(cases), c.Work, func(i int) {
+		k := cases[i]
+		c.R.Case(k.String(), k.Content != 3 && k.W*k.H > 1, fmt.Sprintf("pipel.layers.%d", k.Layers), fmt.Sprintf("pipel.levels.%d", k.Levels),
+			fmt.Sprintf("pipel.comps.%d", k.Comps), fmt.Sprintf("pipel.prog.%d", k.Prog), "pipel.content."+contentNames[k.Content])
+		if i < 2 {
+			c.R.Sample(k)
+		}
+		pix := k.Pixels()
+		src := append([]byte(nil), pix...)
+		prm := k.Params()
+		prm.NumLayers = k.Layers
+		var enc []byte
+		var err error
+		if p, msg := Safely(func() { enc, err = jpeg2000.NewEncoder(prm).Encode(pix) }); p {
+			c.R.Fail("oracle", "pipe_layers", sig("pipel", k.Case, "encode-panic"), msg, k)
+			return
+		}
+		if err != nil {
+			c.R.Fail("oracle", "pipe_layers", sig("pipel", k.Case, "encode-error"), err.Error(), k)
+			return
+		}
+		tile, terr := TileBytes(enc)
+		if terr != nil {
+			c.R.Fail("oracle", "pipe_layers", sig("pipel", k.Case, "tile-bytes"), terr.Error(), k)
+			return
+		}
+		c.R.Oracle("pipe_layers")
+		d := jpeg2000.NewDecoder()
+		var out []byte
+		if p, msg := Safely(func() {
+			err = d.Decode(enc)
+			if err == nil {
+				out = d.GetPixelData()
+			}
+		}); p {
+			c.R.Fail("oracle", "pipe_layers", sig("pipel", k.Case, "decode-panic"), msg, k)
+			return
+		}
+		if err != nil {
+			c.R.Fail("oracle", "pipe_layers", sig("pipel", k.Case, "decode-error"), err.Error(), k)
+			return
+		}
+		if !bytes.Equal(out, src) {
+			c.R.Fail("oracle", "pipe_layers", sig("pipel", k.Case, "mismatch"), "decoded pixels differ from the source", k)
+		}
+		if !c.HasModel() {
+			return
+		}
+		if k.W*k.H*k.Comps > maxSamples {
+			c.R.Count("pipel.model_skipped_too_large")
+			return
+		}
+		al := c.M.Call("pipe_alloc", k.LArgs(Hex(tile))...)
+		if len(al) < 3 || al[:3] != "ok:" {
+			c.R.Fail("corr", "pipe_alloc", sig("pipel", k.Case, "alloc"), "model packet decoder does not parse the Go tile: "+al, k)
+			return
+		}
+		alloc := al[3:]
+		mEnc := c.M.Call("pipe_encode_l", k.LArgs(alloc, Hex(src))...)
+		c.CorrEq("pipe_encode_l", sig("pipel", k.Case, "encode"), mEnc, "ok:"+Hex(tile), k)
+		mCS := c.M.Call("pipe_encode_cs_l", k.LArgs(alloc, Hex(src))...)
+		c.CorrEq("pipe_encode_cs_l", sig("pipel", k.Case, "codestream"), mCS, "ok:"+Hex(enc), k)
+		mDec := c.M.Call("pipe_decode_l", k.LArgs(Hex(tile))...)
+		c.CorrEq("pipe_decode_l", sig("pipel", k.Case, "decode"), mDec, "ok:"+Hex(out), k)
+	})
+}
+
+// ---------------------------------------------------------------------------------------
+// tiles (C19): TileWidth x TileHeight grid, one layer.  Per tile the single-tile pipeline at the
+// tile's origin on the reference grid; compared: the packet bytes of every tile (the codestream
+// parser's Tiles[i].Data), the whole codestream, the decoded pixels.
+
+type TCase struct {
+	Case
+	TW, TH int
+}
+
+func (k TCase) String() string { return fmt.Sprintf("%s tile=%dx%d", k.Case.String(), k.TW, k.TH) }
+
+func (k TCase) TArgs(payload string) []string {
+	a := k.Case.Args("")
+	a = a[:len(a)-1]
+	return append(a, fmt.Sprint(k.TW), fmt.Sprint(k.TH), payload)
+}
+
+func (k TCase) numTiles() int {
+	tw, th := k.TW, k.TH
+	if tw == 0 {
+		tw = k.W
+	}
+	if th == 0 {
+		th = k.H
+	}
+	return ((k.W + tw - 1) / tw) * ((k.H + th - 1) / th)
+}
+
+func genT(r *Rand, thor bool) TCase {
+	k := TCase{Case: gen(r, thor)}
+	pick := func(dim int) int {
+		switch r.Intn(6) {
+		case 0:
+			return 0 // whole dimension
+		case 1:
+			return r.Range(1, 3) // tiny tiles (odd origins, empty resolutions)
+		case 2:
+			return dim
+		case 3:
+			return (dim + 1) / 2
+		default:
+			return r.Range(1, dim+2)
+		}
+	}
+	for {
+		k.TW, k.TH = pick(k.W), pick(k.H)
+		if k.numTiles() <= 64 {
+			return k
+		}
+	}
+}
+
+func runPipeTiles(c *Ctx) {
+	c.R.Rule = "composed reversible path over a tile grid (1 layer, default precincts, style 0): configuration space of the single-tile suite times tile sizes 0 (= dimension), 1..3, half, full, random up to dimension+2 (at most 64 tiles); compared: packet bytes of every tile, whole codestream, decoded pixels; non-trivial = more than one tile and not constant"
+	n := c.N(300, 4000)
+	rng := c.Rng.Fork()
+	cases := make([]TCase, 0, n)
+	for _, raw := range append(c.CorpusInputs("pipe_tiles"), c.ReplayInputs("pipe_tiles")...) {
+		var k TCase
+		if json.Unmarshal(raw, &k) == nil && k.W > 0 {
+			cases = append(cases, k)
+		}
+	}
+	for len(cases) < n {
+		cases = append(cases, genT(rng, c.Thor))
+	}
+	ParallelFor(len(cases), c.Work, func(i int) {
+		k := cases[i]
+		nt := k.numTiles()
+		ntc := "1"
+		if nt > 1 && nt <= 4 {
+			ntc = "2-4"
+		} else if nt > 4 {
+			ntc = "5+"
+		}
+		c.R.Case(k.String(), k.Content != 3 && nt > 1, "pipet.tiles."+ntc, fmt.Sprintf("pipet.levels.%d", k.Levels),
+			fmt.Sprintf("pipet.comps.%d", k.Comps), fmt.Sprintf("pipet.prog.%d", k.Prog), "pipet.content."+contentNames[k.Content])
+		if i < 2 {
+			c.R.Sample(k)
+		}
+		pix := k.Pixels()
+		src := append([]byte(nil), pix...)
+		prm := k.Params()
+		prm.TileWidth, prm.TileHeight = k.TW, k.TH
+		var enc []byte
+		var err error
+		if p, msg := Safely(func() { enc, err = jpeg2000.NewEncoder(prm).Encode(pix) }); p {
+			c.R.Fail("oracle", "pipe_tiles", sig("pipet", k.Case, "encode-panic"), msg, k)
+			return
+		}
+		if err != nil {
+			c.R.Fail("oracle", "pipe_tiles", sig("pipet", k.Case, "encode-error"), err.Error(), k)
+			return
+		}
+		parsed, perr := codestream.NewParser(enc).Parse()
+		if perr != nil {
+			c.R.Fail("oracle", "pipe_tiles", sig("pipet", k.Case, "parse"), perr.Error(), k)
+			return
+		}
+		if len(parsed.Tiles) != nt {
+			c.R.Fail("oracle", "pipe_tiles", sig("pipet", k.Case, "tile-count"), fmt.Sprintf("%d tiles parsed, %d expected", len(parsed.Tiles), nt), k)
+			return
+		}
+		tiles := make([]string, nt)
+		for j, t := range parsed.Tiles {
+			if t.Index != j {
+				c.R.Fail("oracle", "pipe_tiles", sig("pipet", k.Case, "tile-order"), "tile-parts are not in index order", k)
+				return
+			}
+			tiles[j] = Hex(t.Data)
+		}
+		c.R.Oracle("pipe_tiles")
+		d := jpeg2000.NewDecoder()
+		var out []byte
+		if p, msg := Safely(func() {
+			err = d.Decode(enc)
+			if err == nil {
+				out = d.GetPixelData()
+			}
+		}); p {
+			c.R.Fail("oracle", "pipe_tiles", sig("pipet", k.Case, "decode-panic"), msg, k)
+			return
+		}
+		if err != nil {
+			c.R.Fail("oracle", "pipe_tiles", sig("pipet", k.Case, "decode-error"), err.Error(), k)
+			return
+		}
+		if !bytes.Equal(out, src) {
+			c.R.Fail("oracle", "pipe_tiles", sig("pipet", k.Case, "mismatch"), "decoded pixels differ from the source", k)
+		}
+		if !c.HasModel() {
+			return
+		}
+		if k.W*k.H*k.Comps > maxSamples {
+			c.R.Count("pipet.model_skipped_too_large")
+			return
+		}
+		joined := ""
+		for j, t := range tiles {
+			if j > 0 {
+				joined += ";"
+			}
+			joined += t
+		}
+		mEnc := c.M.Call("pipe_encode_t", k.TArgs(Hex(src))...)
+		c.CorrEq("pipe_encode_t", sig("pipet", k.Case, "encode"), mEnc, "ok:"+joined, k)
+		mCS := c.M.Call("pipe_encode_cs_t", k.TArgs(Hex(src))...)
+		c.CorrEq("pipe_encode_cs_t", sig("pipet", k.Case, "codestream"), mCS, "ok:"+Hex(enc), k)
+		mDec := c.M.Call("pipe_decode_t", k.TArgs(joined)...)
+		c.CorrEq("pipe_decode_t", sig("pipet", k.Case, "decode"), mDec, "ok:"+Hex(out), k)
+	})
+}
+
+// ---------------------------------------------------------------------------------------
+// tiles x quality layers (C19 with C05's layered path): more than one tile and NumLayers > 1 makes
+// the encoder run ONE rate-distortion allocation over the blocks of all tiles
+// (writeTilesWithGlobalRateDistortion).  The allocation of every tile is read off its packet
+// headers (pipe_alloc_tl) and handed to the model encoder.
+
+type TLCase struct {
+	TCase
+	Layers int
+}
+
+func (k TLCase) String() string { return fmt.Sprintf("%s ly=%d", k.TCase.String(), k.Layers) }
+
+func (k TLCase) TLArgs(rest ...string) []string {
+	a := k.Case.Args("")
+	a = a[:len(a)-1]
+	a = append(a, fmt.Sprint(k.Layers), fmt.Sprint(k.TW), fmt.Sprint(k.TH))
+	return append(a, rest...)
+}
+
+func runPipeTilesLayers(c *Ctx) {
+	c.R.Rule = "composed reversible path over a tile grid with 2..6 quality layers (global rate-distortion allocation over all tiles; lossless, no rate target): configuration space of the tile suite; the allocation of every tile is recovered from the Go packet headers and handed to the model encoder; compared: packet bytes of every tile, whole codestream, decoded pixels; non-trivial = more than one tile and not constant"
+	n := c.N(150, 2000)
+	rng := c.Rng.Fork()
+	cases := make([]TLCase, 0, n)
+	for _, raw := range append(c.CorpusInputs("pipe_tiles_layers"), c.ReplayInputs("pipe_tiles_layers")...) {
+		var k TLCase
+		if json.Unmarshal(raw, &k) == nil && k.W > 0 && k.Layers > 1 {
+			cases = append(cases, k)
+		}
+	}
+	for len(cases) < n {
+		k := TLCase{TCase: genT(rng, c.Thor)}
+		k.Layers = rng.Range(2, 6)
+		cases = append(cases, k)
+	}
+	ParallelFor(len(cases), c.Work, func(i int) {
+		k := cases[i]
+		nt := k.numTiles()
+		ntc := "1"
+		if nt > 1 && nt <= 4 {
+			ntc = "2-4"
+		} else if nt > 4 {
+			ntc = "5+"
+		}
+		c.R.Case(k.String(), k.Content != 3 && nt > 1, "pipetl.tiles."+ntc, fmt.Sprintf("pipetl.layers.%d", k.Layers),
+			fmt.Sprintf("pipetl.levels.%d", k.Levels), fmt.Sprintf("pipetl.comps.%d", k.Comps), fmt.Sprintf("pipetl.prog.%d", k.Prog))
+		if i < 2 {
+			c.R.Sample(k)
+		}
+		pix := k.Pixels()
+		src := append([]byte(nil), pix...)
+		prm := k.Params()
+		prm.TileWidth, prm.TileHeight = k.TW, k.TH
+		prm.NumLayers = k.Layers
+		var enc []byte
+		var err error
+		if p, msg := Safely(func() { enc, err = jpeg2000.NewEncoder(prm).Encode(pix) }); p {
+			c.R.Fail("oracle", "pipe_tiles_layers", sig("pipetl", k.Case, "encode-panic"), msg, k)
+			return
+		}
+		if err != nil {
+			c.R.Fail("oracle", "pipe_tiles_layers", sig("pipetl", k.Case, "encode-error"), err.Error(), k)
+			return
+		}
+		parsed, perr := codestream.NewParser(enc).Parse()
+		if perr != nil {
+			c.R.Fail("oracle", "pipe_tiles_layers", sig("pipetl", k.Case, "parse"), perr.Error(), k)
+			return
+		}
+		if len(parsed.Tiles) != nt {
+			c.R.Fail("oracle", "pipe_tiles_layers", sig("pipetl", k.Case, "tile-count"), fmt.Sprintf("%d tiles parsed, %d expected", len(parsed.Tiles), nt), k)
+			return
+		}
+		joined := ""
+		for j, t := range parsed.Tiles {
+			if t.Index != j {
+				c.R.Fail("oracle", "pipe_tiles_layers", sig("pipetl", k.Case, "tile-order"), "tile-parts are not in index order", k)
+				return
+			}
+			if j > 0 {
+				joined += ";"
+			}
+			joined += Hex(t.Data)
+		}
+		c.R.Oracle("pipe_tiles_layers")
+		d := jpeg2000.NewDecoder()
+		var out []byte
+		if p, msg := Safely(func() {
+			err = d.Decode(enc)
+			if err == nil {
+				out = d.GetPixelData()
+			}
+		}); p {
+			c.R.Fail("oracle", "pipe_tiles_layers", sig("pipetl", k.Case, "decode-panic"), msg, k)
+			return
+		}
+		if err != nil {
+			c.R.Fail("oracle", "pipe_tiles_layers", sig("pipetl", k.Case, "decode-error"), err.Error(), k)
+			return
+		}
+		if !bytes.Equal(out, src) {
+			c.R.Fail("oracle", "pipe_tiles_layers", sig("pipetl", k.Case, "mismatch"), "decoded pixels differ from the source", k)
+		}
+		if !c.HasModel() {
+			return
+		}
+		if k.W*k.H*k.Comps > maxSamples {
+			c.R.Count("pipetl.model_skipped_too_large")
+			return
+		}
+		al := c.M.Call("pipe_alloc_tl", k.TLArgs(joined)...)
+		if len(al) < 3 || al[:3] != "ok:" {
+			c.R.Fail("corr", "pipe_alloc_tl", sig("pipetl", k.Case, "alloc"), "model packet decoder does not parse a Go tile: "+al, k)
+			return
+		}
+		alloc := al[3:]
+		mEnc := c.M.Call("pipe_encode_tl", k.TLArgs(alloc, Hex(src))...)
+		c.CorrEq("pipe_encode_tl", sig("pipetl", k.Case, "encode"), mEnc, "ok:"+joined, k)
+		mCS := c.M.Call("pipe_encode_cs_tl", k.TLArgs(alloc, Hex(src))...)
+		c.CorrEq("pipe_encode_cs_tl", sig("pipetl", k.Case, "codestream"), mCS, "ok:"+Hex(enc), k)
+		mDec := c.M.Call("pipe_decode_tl", k.TLArgs(joined)...)
+		c.CorrEq("pipe_decode_tl", sig("pipetl", k.Case, "decode"), mDec, "ok:"+Hex(out), k)
 	})
 }
